@@ -24,9 +24,9 @@ def G(pOf, nf, **kw):
 
 def make_groups(rng):
     t = rng.choice(["m2x3", "v2x3", "m2x2", "t3", "rect", "ign0", "ignall", "t4", "fuse", "s0v", "sq"])
-    gs = [family.draw_group(rng, t, kind="soap")]
+    gs = [family.draw_group(rng, t, kind="soap", method=rng.choice(["eigh", "qr", "qr"]))]
     if rng.random() < 0.3:
-        gs.append(family.draw_group(rng, rng.choice(["m2x2", "rect", "t3"]), kind="soap"))
+        gs.append(family.draw_group(rng, rng.choice(["m2x2", "rect", "t3"]), kind="soap", method=rng.choice(["eigh", "qr"])))
     return gs
 
 
@@ -41,6 +41,15 @@ def run(ctx):
     wit = [("first factor decides the basis", [G([1, 2], [2, 2], freq=1, start=1)], 3, ("fail",), (), ("FirstFactorDecidesBasis",))]
     sp.run_mc(ctx, mc, wit)
     tasks = sp.gen_tasks(ctx, rng, 12 if quick else 80, 12 if quick else 40, make_groups, 8, ("fail",), ("mom", "b1", "wd"))
+    # tolerance-controlled orthogonal iteration on factors far from unit scale (the stopping rule is relative to the basis, not to the factor)
+    qt = sp.gen_tasks(ctx, rng, 4 if quick else 20, 6 if quick else 15,
+                      lambda r: [family.draw_group(r, r.choice(["m2x3", "rect", "t3", "m2x2", "big"]), kind="soap", method="qr", freq=r.choice([1, 2]))],
+                      8, (), ("lr",))
+    for d, _, _ in qt:
+        for g in d["groups"]:
+            g["qr_iters"], g["qr_tol"] = rng.choice([25, 50]), rng.choice([1e-3, 1e-2, 1e-4])
+        d["grad_scales"] = rng.choice([[1e3], [1e-5], [1e2], [1.0]])
+    tasks += qt
     sp.run_rt(ctx, tasks, owns, "soap")
     # dtype pairings: the stored basis has the parameter's precision, the factor the preconditioner's
     pair = []
